@@ -1,0 +1,43 @@
+//go:build verif
+
+// Machine-checked contracts for package arg2 (read by /verif/govc; comments only).
+
+package arg2
+
+// The iterator yields exactly the pairs present in the buffer: on success the
+// key and value are the two 16-bit length-prefixed ranges at the front of
+// `remaining`, the rest follows, and the count decreases by one; on short
+// input it returns an error and no pair; it never panics (C18, C08).
+
+//@ func NewKeyValIterator(arg2Payload []byte) (kv KeyValIterator, err error)
+//@   ensures len(arg2Payload) < 2 ==> err != nil
+//@   ensures err == nil ==> len(arg2Payload) >= 6 && be16(arg2Payload, 0) >= 1 &&
+//@             kv.leftPairCount == be16(arg2Payload, 0) - 1 &&
+//@             kv.key == arg2Payload[2:][2:2+be16(arg2Payload, 2)]
+//@   property C18 C08 C03
+
+//@ func (i KeyValIterator) Next() (kv KeyValIterator, err error)
+//@   label exhausted
+//@   ensures i.leftPairCount <= 0 ==> err != nil
+//@   label short-input-is-error
+//@   ensures i.leftPairCount > 0 && (len(i.remaining) < 4 || len(i.remaining) < 4 + be16(i.remaining, 0) ||
+//@             len(i.remaining) < 4 + be16(i.remaining, 0) + be16(i.remaining, 2 + be16(i.remaining, 0))) ==> err != nil
+//@   label no-pair-on-error
+//@   ensures err != nil ==> kv.key == nil && kv.val == nil && kv.remaining == nil && kv.leftPairCount == 0
+//@   label exact-pair
+//@   ensures err == nil ==> i.leftPairCount > 0 && len(i.remaining) >= 4 + be16(i.remaining, 0) + be16(i.remaining, 2 + be16(i.remaining, 0)) &&
+//@             kv.key == i.remaining[2:2+be16(i.remaining, 0)] &&
+//@             kv.val == i.remaining[4+be16(i.remaining, 0):4+be16(i.remaining, 0)+be16(i.remaining, 2 + be16(i.remaining, 0))] &&
+//@             kv.remaining == i.remaining[4+be16(i.remaining, 0)+be16(i.remaining, 2 + be16(i.remaining, 0)):] &&
+//@             kv.leftPairCount == i.leftPairCount - 1
+//@   property C18 C08 C03
+
+//@ func (i KeyValIterator) Key() (b []byte)
+//@   ensures b == i.key
+//@   property C18
+//@ func (i KeyValIterator) Value() (b []byte)
+//@   ensures b == i.val
+//@   property C18
+//@ func (i KeyValIterator) Remaining() (ok bool)
+//@   ensures ok <==> i.leftPairCount > 0
+//@   property C18
